@@ -159,8 +159,69 @@ def inside (j : Json) : Except String Json := do
     ("n_valid", natToJson nValid), ("n_bad", natToJson nBad), ("bad", Json.arr bad),
     ("n_wta_bad", natToJson nWtaBad), ("wta_bad", Json.arr wtaBad), ("n_valid_all_nan", natToJson nAllNanValid)]
 
+/-- Specification evaluated on observed products only (no model volume), for per-pixel grids with rational
+    (non-integer) bounds: `dminq`/`dmaxq` are the requested bounds of every pixel, `coords` the disparity
+    coordinates of the observed cost volume `cv` (may be absent), `disp` / `valid_px` an observed map (may be absent).
+    * a cost at a coordinate outside the pixel's own `[min, max]` is NaN (`outside_pixel_interval_nan`);
+    * a valid pixel's disparity lies inside its own `[min, max]`. -/
+def fractional (j : Json) : Except String Json := do
+  let dminq ← field j "dminq" >>= arr2OfJson ratOfJson
+  let dmaxq ← field j "dmaxq" >>= arr2OfJson ratOfJson
+  let coords ← match fieldD j "coords" Json.null with
+    | Json.null => pure ([] : List Rat)
+    | v => listOfJson ratOfJson v
+  let cv ← match fieldD j "cv" Json.null with
+    | Json.null => pure (#[] : Array (Array (Array Val)))
+    | v => vol3OfJson v
+  let disp ← match fieldD j "disp" Json.null with
+    | Json.null => pure (#[] : Array (Array Val))
+    | v => arr2OfJson valOfJson v
+  let valid ← match fieldD j "valid_px" Json.null with
+    | Json.null => pure (#[] : Array (Array Bool))
+    | v => arr2OfJson boolOfJson v
+  let rows := dminq.size
+  let mut nOutside := 0
+  let mut nInside := 0
+  let mut nBadCost := 0
+  let mut badCost : Array Json := #[]
+  let mut nValid := 0
+  let mut nBadDisp := 0
+  let mut badDisp : Array Json := #[]
+  for r in List.range rows do
+    let cols := (dminq[r]?.getD #[]).size
+    for c in List.range cols do
+      let lo := fn2 dminq 0 r c
+      let hi := fn2 dmaxq 0 r c
+      let mut jj := 0
+      for q in coords do
+        let v := (at3 cv r c jj).getD Val.nan
+        if q < lo ∨ q > hi then
+          nOutside := nOutside + 1
+          if !valEq v Val.nan then
+            nBadCost := nBadCost + 1
+            if badCost.size < 3 then
+              badCost := badCost.push (mkObj [("r", natToJson r), ("c", natToJson c), ("disp", ratToJson q),
+                ("lo", ratToJson lo), ("hi", ratToJson hi), ("got", valToJson v)])
+        else
+          nInside := nInside + 1
+        jj := jj + 1
+      if fn2 valid false r c then
+        nValid := nValid + 1
+        match fn2 disp Val.nan r c with
+        | .nan =>
+          nBadDisp := nBadDisp + 1
+          if badDisp.size < 3 then badDisp := badDisp.push (mkObj [("r", natToJson r), ("c", natToJson c), ("why", Json.str "valid pixel with NaN disparity")])
+        | .num q =>
+          if q < lo ∨ q > hi then
+            nBadDisp := nBadDisp + 1
+            if badDisp.size < 3 then
+              badDisp := badDisp.push (mkObj [("r", natToJson r), ("c", natToJson c), ("disp", ratToJson q), ("lo", ratToJson lo), ("hi", ratToJson hi)])
+  return mkObj [("n_outside", natToJson nOutside), ("n_inside", natToJson nInside), ("n_bad_cost", natToJson nBadCost),
+    ("bad_cost", Json.arr badCost), ("n_valid", natToJson nValid), ("n_bad_disp", natToJson nBadDisp), ("bad_disp", Json.arr badDisp)]
+
 def handle (op : String) (j : Json) : Except String Json :=
   match op with
+  | "C09.fractional" => fractional j
   | "C09.pair" => pair j
   | "C09.inside" => inside j
   | "C09.hyp" => Pandora.Driver.C09Pipeline.hyp j
